@@ -180,6 +180,7 @@ type destinationTripper struct {
 	keepAlives      bool
 	wellKnownSRV    bool
 	dialer          *net.Dialer
+	wellKnown       *http.Transport // see wellKnownTransport
 }
 
 func newDestinationTripper(skipVerify bool, dnsCache *DNSCache, keepAlives, wellKnownSRV bool, allowCIDRs []string, denyCIDRs []string) *destinationTripper {
@@ -326,6 +327,36 @@ func (f *destinationTripper) getTransport(tlsServerName string, dialer *net.Dial
 	return transport
 }
 
+// wellKnownTransport returns the transport to fetch .well-known files with. By default
+// that is http.DefaultTransport (nil). If this client restricts the networks it may
+// connect to, or resolves names through a DNS cache, then the well-known request - whose
+// destination is chosen by the remote server name, and by whatever redirects it is
+// answered with - has to go through the same dialer as the federation requests.
+func (f *destinationTripper) wellKnownTransport() http.RoundTripper {
+	if f.dialer.ControlContext == nil && f.dnsCache == nil {
+		return nil
+	}
+	f.transportsMutex.Lock()
+	defer f.transportsMutex.Unlock()
+	if f.wellKnown == nil {
+		var tr *http.Transport
+		if def, ok := http.DefaultTransport.(*http.Transport); ok {
+			tr = def.Clone()
+		} else {
+			tr = &http.Transport{Proxy: http.ProxyFromEnvironment}
+		}
+		tr.DialContext = f.dialer.DialContext
+		if f.dnsCache != nil {
+			tr.DialContext = f.dnsCache.dialContextVia(f.dialer)
+		}
+		// nothing may dial around it
+		tr.DialTLSContext = nil
+		tr.Dial, tr.DialTLS = nil, nil // nolint: staticcheck
+		f.wellKnown = tr
+	}
+	return f.wellKnown
+}
+
 func makeHTTPSURL(u *url.URL, addr string) (httpsURL url.URL) {
 	httpsURL = *u
 	httpsURL.Scheme = "https"
@@ -350,7 +381,8 @@ retryResolution:
 		// If the cache returned nothing then we'll have no results here,
 		// so go and hit the network.
 		if len(resolutionResults) == 0 {
-			resolutionResults, err = ResolveServer(r.Context(), serverName)
+			ctx := withWellKnownTransport(r.Context(), f.wellKnownTransport())
+			resolutionResults, err = ResolveServer(ctx, serverName)
 			if err != nil {
 				return nil, err
 			}
